@@ -2283,6 +2283,14 @@ impl Polynomial<'_, BFieldElement> {
         ntt(&mut dividend_coefficients);
         ntt(&mut divisor_coefficients);
 
+        // Incompleteness workaround: If the divisor vanishes somewhere on the evaluation domain,
+        // point-wise division is impossible. Use long division instead.
+        if divisor_coefficients.iter().any(Zero::is_zero) {
+            let (quotient, remainder) = dividend.divide(&divisor);
+            debug_assert!(remainder.is_zero());
+            return quotient;
+        }
+
         let divisor_inverses = XFieldElement::batch_inversion(divisor_coefficients);
         let mut quotient_codeword = dividend_coefficients
             .into_iter()
